@@ -53,6 +53,22 @@ fn ctx_big() -> Value {
     }
 }
 
+/// the contexts with every string a *safe* string (auto-escape streams)
+fn safe(s: &str) -> Value {
+    Value::from_safe_string(s.to_string())
+}
+
+fn ctx_safe() -> Value {
+    context! {
+        i1 => 3, i2 => 7, z => 0, s1 => safe("ab"), s2 => safe(""), s3 => safe("b"), b1 => true, b0 => false, n => (),
+        l1 => vec![1, 2, 3], l0 => Vec::<i32>::new(), ls => vec![safe("b"), safe("a")],
+        m1 => context!{ k => 1, n => context!{ q => safe("x") } },
+        a => context!{ x => 1 },
+        lm => vec![context!{ k => 1, v => safe("p") }, context!{ k => 2, v => "q" }, context!{ v => "r" }],
+        f1 => 2.5, nl => safe("a\nb c"), neg => -3, fmt => safe("%s-%s"), html => "<a b>", sn => safe("42"), sf => "4.5",
+    }
+}
+
 struct Envs {
     /// default formatter
     envs: Vec<Environment<'static>>,
@@ -92,6 +108,30 @@ fn add_arg_filters(e: &mut Environment<'static>) {
     e.add_filter("t_two", |a: String, b: String| format!("<{}{}>", a, b));
     e.add_filter("t_vec", |v: Vec<String>| format!("<{}>", v.join(",")));
     e.add_filter("t_rest", |a: String, r: minijinja::value::Rest<String>| format!("<{}:{}>", a, r.join(",")));
+    // the public State / Value API called from Rust with the template's values
+    e.add_function("api", |state: &mut minijinja::State, op: String, args: minijinja::value::Rest<Value>| -> Result<Value, minijinja::Error> {
+        let name = |i: usize| args.get(i).and_then(|v| v.as_str()).unwrap_or("").to_string();
+        let arg = |i: usize| args.get(i).cloned().unwrap_or_default();
+        let rest = |i: usize| -> Vec<Value> { args.iter().skip(i).cloned().collect() };
+        match op.as_str() {
+            "format" => state.format(arg(0)).map(Value::from),
+            "apply_filter" => state.apply_filter(&name(0), &rest(1)),
+            "perform_test" => state.perform_test(&name(0), &rest(1)).map(Value::from),
+            "call_macro" => state.call_macro(&name(0), &rest(1)).map(Value::from),
+            "call" => arg(0).call(state, &rest(1)),
+            "call_method" => arg(0).call_method(state, &name(1), &rest(2)),
+            "get_attr" => arg(0).get_attr(&name(1)),
+            "get_item" => arg(0).get_item(&arg(1)),
+            "get_item_by_index" => arg(0).get_item_by_index(1),
+            "try_iter" => arg(0).try_iter().map(|it| Value::from(it.collect::<Vec<_>>())),
+            "len" => Ok(Value::from(arg(0).len().map(|x| x as i64).unwrap_or(-1))),
+            "is_true" => Ok(Value::from(arg(0).is_true())),
+            "lookup" => Ok(state.lookup(&name(0)).unwrap_or_default()),
+            "render_block" => state.render_block(&name(0)).map(Value::from),
+            "to_string" => Ok(Value::from(arg(0).to_string())),
+            _ => Err(minijinja::Error::new(minijinja::ErrorKind::InvalidOperation, "unknown api op")),
+        }
+    });
     // templates for the multi-template statements of the `stmt` stream
     e.add_template("inc", "(inc {{ i1 }}{{ u }})").unwrap();
     e.add_template("incdef", "(incdef {{ u is defined }}{{ u|default(1) }})").unwrap();
@@ -135,8 +175,13 @@ fn mk_envs() -> Envs {
 }
 
 fn render(env: &Environment, src: &str, ctx: &Value, counting: bool) -> String {
+    render_named(env, "<string>", src, ctx, counting)
+}
+
+/// `name` decides the auto-escaping (`*.html` = Html)
+fn render_named(env: &Environment, name: &str, src: &str, ctx: &Value, counting: bool) -> String {
     FMT_CALLS.with(|c| c.set(0));
-    match guarded(|| env.render_str(src, ctx.clone())) {
+    match guarded(|| env.render_named_str(name, src, ctx.clone())) {
         Ok(Ok(mut s)) => {
             if counting {
                 s.push_str(&format!("#{}", FMT_CALLS.with(|c| c.get())));
@@ -370,6 +415,69 @@ fn enc_prog(envs: &Envs, src: &str, ctx: &Value, fmt_kind: usize) -> String {
 }
 
 /// `ctx<TAB><value tokens>`: the context of the modelled streams
+/// other ways into the engine / other configurations of the environment
+const ENTRIES: &[&str] = &["loader", "from_str", "captured", "expression", "block", "syntax", "nodebug", "escape_cb", "macro"];
+
+fn entry_render(entry: &str, mode: UndefinedBehavior, src: &str, ctx: &Value) -> String {
+    let r = guarded(|| -> Result<String, minijinja::Error> {
+        let mut env = Environment::new();
+        env.set_undefined_behavior(mode);
+        add_arg_filters(&mut env);
+        match entry {
+            "loader" => {
+                let owned = src.to_string();
+                env.set_loader(move |name| Ok(if name == "site" { Some(owned.clone()) } else { None }));
+                env.get_template("site")?.render(ctx.clone())
+            }
+            "from_str" => env.template_from_str(src)?.render(ctx.clone()),
+            "captured" => Ok(env.template_from_str(src)?.render_captured(ctx.clone())?.into_output()),
+            "expression" => {
+                // `[{{ EXPR }}]` sites only
+                let inner = src.strip_prefix("[{{ ").and_then(|s| s.strip_suffix(" }}]"));
+                match inner {
+                    Some(e) if !e.contains("}}") => Ok(format!("[{}]", env.compile_expression(e)?.eval(ctx.clone())?)),
+                    _ => Ok("not-an-expression".into()),
+                }
+            }
+            "block" => {
+                let wrapped = format!("{{% block site %}}{}{{% endblock %}}", src);
+                let tmpl = env.template_from_str(&wrapped)?;
+                let mut cap = tmpl.render_captured(ctx.clone())?;
+                cap.with_state_mut(|state| state.render_block("site"))
+            }
+            "syntax" => {
+                let syntax = minijinja::syntax::SyntaxConfig::builder()
+                    .block_delimiters("<%", "%>")
+                    .variable_delimiters("<<", ">>")
+                    .comment_delimiters("<#", "#>")
+                    .build()?;
+                env.set_syntax(syntax);
+                let t = src.replace("{{", "<<").replace("}}", ">>").replace("{%", "<%").replace("%}", "%>");
+                env.render_str(&t, ctx.clone())
+            }
+            "nodebug" => {
+                env.set_debug(false);
+                env.render_str(src, ctx.clone())
+            }
+            "escape_cb" => {
+                env.set_auto_escape_callback(|_| minijinja::AutoEscape::Html);
+                env.render_str(src, ctx.clone())
+            }
+            "macro" => {
+                // the site inside a macro body, called through State::call_macro
+                let wrapped = format!("{{% macro site() %}}{}{{% endmacro %}}{{{{ api('call_macro', 'site') }}}}", src);
+                env.render_str(&wrapped, ctx.clone())
+            }
+            _ => unreachable!(),
+        }
+    });
+    match r {
+        Ok(Ok(s)) => format!("ok:{}", hex(s.as_bytes())),
+        Ok(Err(e)) => format!("err:{}", error_kind_name(&e)),
+        Err(p) => format!("panic:{}", hex(p.as_bytes())),
+    }
+}
+
 fn emit_ctx(w: &mut impl std::io::Write, envs: &Envs) {
     let mut out = String::new();
     enc_value(&envs.envs[3], &ctx_small(), &mut out).expect("context inside the model domain");
@@ -378,7 +486,9 @@ fn emit_ctx(w: &mut impl std::io::Write, envs: &Envs) {
 
 /// a builtin call: the last field is the `B …` description of the call instead of a program
 fn emit_sig(w: &mut impl std::io::Write, envs: &Envs, stream: &str, id: usize, label: &str, src: &str, ctx: &Value, sig: &str) {
-    let rs: Vec<String> = envs.envs.iter().map(|e| render(e, src, ctx, false)).collect();
+    // streams ending in `h`: a `.html` template (auto-escaping on)
+    let name = if stream.ends_with('h') { "c.html" } else { "<string>" };
+    let rs: Vec<String> = envs.envs.iter().map(|e| render_named(e, name, src, ctx, false)).collect();
     writeln!(w, "{}\t{}\t{}\t{}\t{}\t{}", stream, id, label, src, rs.join("\t"), sig).unwrap();
 }
 
@@ -578,6 +688,22 @@ const BUILTINS: &[B] = &[
     b("filter", "reverse", &["l1"], &[]),
     b("filter", "trim", &["' ab '", "' '"], &[]),
     b("filter", "join", &["l1", "','", "'k'"], &[]),
+    b("filter", "join", &["ls", "s3"], &[]),
+    b("filter", "join", &["[i1, html, s1]", "s3"], &[]),
+    b("filter", "join", &["[i1, s1]", "', '"], &[]),
+    b("filter", "format", &["fmt", "s1", "html"], &[]),
+    b("filter", "replace", &["s1", "s3", "html"], &[]),
+    b("filter", "replace", &["html", "'a'", "s1"], &[]),
+    b("filter", "default", &["s2", "html", "b1"], &[]),
+    b("filter", "indent", &["nl", "2"], &[("first", "b1")]),
+    b("filter", "last", &["s1"], &[]),
+    b("filter", "reverse", &["s1"], &[]),
+    b("filter", "lines", &["nl"], &[]),
+    b("filter", "capitalize", &["s3"], &[]),
+    b("filter", "trim", &["s1", "s3"], &[]),
+    b("filter", "split", &["s1", "s3"], &[]),
+    b("filter", "tojson", &["s1"], &[]),
+    b("filter", "escape", &["s1"], &[]),
     b("filter", "split", &["'a,b,c'", "','", "1"], &[]),
     b("filter", "lines", &["nl"], &[]),
     b("filter", "default", &["s2", "5", "b1"], &[]),
@@ -702,6 +828,64 @@ const STMTS: &[&str] = &[
     "{{ [1, 2] + u }}", "{{ u + u }}", "{{ u ** 2 }}", "{{ u // 2 }}", "{{ 7 % u }}", "{{ u / 1 }}", "{{ -u }}", "{{ +u }}", "{{ u * 'a' }}", "{{ (u, 1) }}", "{{ (u,) }}", "{{ [u] }}", "{{ {'k': u} }}", "{{ {u: 1} }}", "{{ [u, [u]]|string }}", "{{ {'a': u}|tojson }}", "{{ [u]|tojson }}", "{{ u|tojson }}", "{{ {'a': u}|urlencode }}", "{{ {'a': u}|dictsort }}", "{{ [u, 1]|sort }}", "{{ [u, 1]|unique|list }}", "{{ [u, 1]|min }}", "{{ [u, 1]|join('-') }}", "{{ [u, u]|sum }}", "{{ [u]|first }}", "{{ [u]|last.x }}", "{{ ([u]|first).x }}", "{{ [u][0].x }}", "{{ {'a': u}.a.x }}", "{{ {'a': u}['a']['x'] }}",
 ];
 
+/// operands of the `api` stream
+const API_OPERANDS: &[&str] = &["u", "(1 if b0)", "none", "a.b", "[u]", "[s1, u]", "[html|safe, u]", "s1", "i1", "m1", "{'k': u}"];
+
+fn api_templates() -> Vec<String> {
+    let mut v = vec![];
+    let pre = "{% macro m(a, b=u) %}<{{ a }}|{{ b is defined }}>{% endmacro %}{% macro t(a) %}{% if a %}y{% else %}n{% endif %}{% endmacro %}{% block blk %}({{ u|default('d') }}{{ w if b0 }}){% endblock %}";
+    for x in API_OPERANDS {
+        for call in [
+            format!("api('format', {x})"),
+            format!("api('to_string', {x})"),
+            format!("api('apply_filter', 'upper', {x})"),
+            format!("api('apply_filter', 'default', {x}, 1)"),
+            format!("api('apply_filter', 'default', 1, 2, {x})"),
+            format!("api('apply_filter', 'join', {x}, s3)"),
+            format!("api('apply_filter', 'join', [s1, {x}], s3)"),
+            format!("api('apply_filter', 'join', l1, {x})"),
+            format!("api('apply_filter', 'attr', {x}, 'k')"),
+            format!("api('apply_filter', 'list', {x})"),
+            format!("api('apply_filter', 'int', {x})"),
+            format!("api('apply_filter', 'escape', {x})"),
+            format!("api('apply_filter', 'replace', s1, {x}, html)"),
+            format!("api('apply_filter', 'map', {x}, 'upper')|list"),
+            format!("api('apply_filter', 'nope', {x})"),
+            format!("api('perform_test', 'defined', {x})"),
+            format!("api('perform_test', 'in', 1, {x})"),
+            format!("api('perform_test', 'odd', {x})"),
+            format!("api('perform_test', 'startingwith', s1, {x})"),
+            format!("api('call_macro', 'm', {x})"),
+            format!("api('call_macro', 'm', 1, {x})"),
+            format!("api('call_macro', 'm')"),
+            format!("api('call_macro', 't', {x})"),
+            format!("api('call_macro', {x})"),
+            format!("api('call', m, {x})"),
+            format!("api('call', t, {x})"),
+            format!("api('call', {x})"),
+            format!("api('call', {x}, 1)"),
+            format!("api('call_method', {x}, 'f')"),
+            format!("api('call_method', m1, {x})"),
+            format!("api('get_attr', {x}, 'k')"),
+            format!("api('get_attr', m1, {x})"),
+            format!("api('get_item', {x}, 0)"),
+            format!("api('get_item', l1, {x})"),
+            format!("api('get_item', m1, {x})"),
+            format!("api('get_item_by_index', {x})"),
+            format!("api('try_iter', {x})"),
+            format!("api('len', {x})"),
+            format!("api('is_true', {x})"),
+            format!("api({x}, 1)"),
+        ] {
+            v.push(format!("{}[{{{{ {} }}}}]", pre, call));
+        }
+    }
+    for call in ["api('lookup', 'u')", "api('lookup', 'u').x", "api('lookup', 'i1')", "api('render_block', 'blk')", "api('render_block', 'nope')", "api('render_block', u)"] {
+        v.push(format!("{}[{{{{ {} }}}}]", pre, call));
+    }
+    v
+}
+
 /// tests whose names are operator symbols are only reachable through select/reject
 const SYMBOL_TESTS: [&str; 6] = ["==", "!=", "<", "<=", ">", ">="];
 
@@ -713,16 +897,33 @@ const SUBST: &[(&str, &str)] = &[
     ("lu", "[i1, u]"),
     ("mu", "{'k': u}"),
     ("au", "a.b"),
+    ("lsu", "[s1, u]"),
+    ("lhu", "[html|safe, a.b, i1]"),
 ];
 
 /// how undefined an operand expression of the builtin streams is: u = undefined, s = silent
-/// undefined, n = none, l = a list holding an undefined, d = anything else
-fn kind_of(expr: &str) -> &'static str {
+/// undefined, n = none, l = a list holding an undefined, L = a list of defined values, M = a map,
+/// t = a string, d = anything else
+fn kind_of(expr: &str) -> String {
+    // a string literal is passed on as such (names of tests / filters, attribute paths)
+    if expr.len() >= 2 && expr.starts_with('\'') && expr.ends_with('\'') && !expr[1..expr.len() - 1].contains('\'') {
+        let inner = &expr[1..expr.len() - 1];
+        if !inner.is_empty() && inner.is_ascii() {
+            return format!("q{}", hex(inner.as_bytes()));
+        }
+    }
+    kind_of_simple(expr).to_string()
+}
+
+fn kind_of_simple(expr: &str) -> &'static str {
     match expr {
         "u" | "a.b" => "u",
         "(1 if b0)" => "s",
         "none" | "n" => "n",
-        "[i1, u]" | "[u]" => "l",
+        "[i1, u]" | "[u]" | "[s1, u]" | "[html|safe, a.b, i1]" => "l",
+        "l1" | "ls" | "lm" | "[i1, html, s1]" | "[i1, s1]" => "L",
+        "m1" | "a" => "M",
+        "s1" | "s3" | "html" | "nl" | "fmt" | "sn" | "sf" => "t",
         _ => "d",
     }
 }
@@ -732,7 +933,7 @@ fn sig_field(kind: &str, name: &str, args: &[String], has_kwargs: bool) -> Strin
     let mut s = format!("B {} {}", kind, hx(name));
     for a in args {
         s.push(' ');
-        s.push_str(kind_of(a));
+        s.push_str(&kind_of(a));
     }
     if has_kwargs {
         s.push_str(" k");
@@ -828,7 +1029,7 @@ fn gen_calls(tier: &str, f: &mut dyn FnMut(String, (String, String))) {
     }
 }
 
-const POOL: &[&str] = &["u", "(1 if b0)", "none", "i1", "s1", "z", "l1", "m1", "b1", "[u]", "f1"];
+const POOL: &[&str] = &["u", "(1 if b0)", "none", "i1", "s1", "z", "l1", "m1", "b1", "[u]", "f1", "[s1, u]"];
 
 fn all_names() -> Vec<(&'static str, &'static str)> {
     let mut v: Vec<(&str, &str)> = vec![];
@@ -1278,11 +1479,41 @@ fn main() {
                 emit_sig(&mut w, &envs, "sweep", id, label, src, &big, sig);
                 id += 1;
             }
+            // the same builtin calls in a `.html` template (auto-escaping on) with safe strings around
+            let safe_ctx = ctx_safe();
+            for (label, (src, sig)) in &calls {
+                emit_sig(&mut w, &envs, "callh", id, label, src, &safe_ctx, sig);
+                id += 1;
+            }
+            for (label, (src, sig)) in &sweep {
+                emit_sig(&mut w, &envs, "sweeph", id, label, src, &safe_ctx, sig);
+                id += 1;
+            }
             for stream in ["stmt", "stmtv", "stmtc"] {
                 for src in STMTS {
                     emit(&mut w, &envs, stream, id, "stmt", src, &big, false);
                     id += 1;
                 }
+            }
+            for src in STMTS {
+                emit_sig(&mut w, &envs, "stmth", id, "stmt", src, &safe_ctx, "-");
+                id += 1;
+            }
+            // the public State / Value API, plain and auto-escaped
+            for src in api_templates() {
+                emit_sig(&mut w, &envs, "api", id, "api", &src, &big, "-");
+                id += 1;
+                emit_sig(&mut w, &envs, "apih", id, "api", &src, &safe_ctx, "-");
+                id += 1;
+            }
+            // other entry points and environment configurations for the site templates
+            for (ei, e) in ENTRIES.iter().enumerate() {
+                for (class, src, _) in SITES {
+                    let rs: Vec<String> = MODES.iter().map(|m| entry_render(e, *m, src, &small)).collect();
+                    writeln!(w, "entry\t{}\t{}:{}\t{}\t{}\t-", id, e, class, src, rs.join("\t")).unwrap();
+                    id += 1;
+                }
+                let _ = ei;
             }
             let n_model = if tier == "thorough" { 100000 } else { 2000 };
             let n_rich = if tier == "thorough" { 100000 } else { 2000 };
@@ -1302,6 +1533,10 @@ fn main() {
                 }
                 if i % 6 == 1 {
                     emit(&mut w, &envs, "progc", id, label, &src, &small, true);
+                    id += 1;
+                }
+                if i % 3 == 2 {
+                    emit_sig(&mut w, &envs, "progh", id, label, &src, &safe_ctx, "-");
                     id += 1;
                 }
             }
